@@ -3,7 +3,7 @@ CONSTANTS AggReplace = FALSE
  AggKeepFirst = FALSE
  MCKinds = {"pro","misc"}
  MaxStores = 4
- MaxQ = 3
+ MaxQ = 2
  MaxExp = 2
  MaxSet = 2
 INVARIANTS Safety
